@@ -181,7 +181,7 @@ def c05_b(ctx: Ctx):
     R = "C05-b"
     out = []
     for r in c03_b(ctx):
-        if "_document" in r.construct or "_document" in r.detail:
+        if "_document" in r.construct or "_document" in r.detail or "_directory_known" in r.construct:
             r.rule = R
             out.append(r)
     _doc_file_guard(ctx, out, R)
@@ -209,10 +209,11 @@ def c05_c(ctx: Ctx):
     for q in ("signac.job:Job.document.setter", "signac.project:Project.document.setter"):
         fi = ctx.fn(q)
         p = [x for x in fi.params if x != "self"]
-        ok = any(isinstance(n, ast.Call) and canon(n.func) in ("self.document.reset", "self._document.reset", "self.doc.reset")
+        ok = any(isinstance(n, ast.Call) and isinstance(n.func, ast.Attribute) and n.func.attr == "reset"
+                 and canon(common.inline_at(ctx, fi, n.func.value, n)) in ("self.document", "self._document", "self.doc")
                  and n.args and isinstance(n.args[0], ast.Name) and p and n.args[0].id == p[0] for n in body_nodes(fi))
         muts = [n for n in body_nodes(fi) if isinstance(n, ast.Call) and isinstance(n.func, ast.Attribute) and n.func.attr in ("clear", "update", "reset", "pop", "setdefault")
-                and ("doc" in canon(n.func.value))]
+                and ("doc" in canon(common.inline_at(ctx, fi, n.func.value, n)))]
         if ok and len(muts) == 1:
             out.append(ctx.ok(R, fi, fi.node, "assignment is one reset(<new value>) on the existing document handle (a single atomic write)"))
         elif len(muts) >= 2:
